@@ -31,6 +31,7 @@ type obj struct {
 	coil    *packet.ReadCoilsResponseTCP // shares nothing with resp; has its own payload copy
 	coilPay []byte
 	coilBR  modbus.BuilderRequest // coil fields incl. adjacent duplicates
+	mixedBR modbus.BuilderRequest // a hand-assembled request listing register AND coil fields, two of them failing
 }
 
 func build(payload []byte, start uint16) *obj {
@@ -63,6 +64,14 @@ func build(payload []byte, start uint16) *obj {
 	}
 	o.coilBR = modbus.BuilderRequest{ServerAddress: "s", UnitID: 1, StartAddress: start,
 		Fields: modbus.Fields{cf("c0", 0), cf("c0", 0), cf("c3", 3), cf("c5", 5), cf("c5", 5), cf("c7", 7)}}
+	o.mixedBR = modbus.BuilderRequest{ServerAddress: "s", UnitID: 1, StartAddress: start, Fields: modbus.Fields{
+		cf("m-c1", 1),
+		{Name: "m-u16", ServerAddress: "s", UnitID: 1, Address: start, Type: modbus.FieldTypeUint16},
+		{Name: "m-beyond-a", ServerAddress: "s", UnitID: 1, Address: start + uint16(n), Type: modbus.FieldTypeUint16},
+		cf("m-c4", 4),
+		{Name: "m-beyond-b", ServerAddress: "s", UnitID: 1, Address: start + uint16(n) + 1, Type: modbus.FieldTypeInt16},
+		{Name: "m-byte", ServerAddress: "s", UnitID: 1, Address: start, Type: modbus.FieldTypeByte},
+	}}
 	return o
 }
 
@@ -72,7 +81,7 @@ func build(payload []byte, start uint16) *obj {
 // history comparison instead.
 func (o *obj) key() string {
 	return hex.EncodeToString(o.payload) + "|" + hex.EncodeToString(o.resp.Data) + "|" + fmt.Sprintf("%d %d %d", o.resp.UnitID, o.resp.RegisterByteLen, o.resp.TransactionID) +
-		"|" + hex.EncodeToString(o.coilPay) + "|" + hex.EncodeToString(o.coil.Data) + "|" + fmt.Sprintf("%+v", o.br.Fields) + "|" + fmt.Sprintf("%+v", o.coilBR.Fields)
+		"|" + hex.EncodeToString(o.coilPay) + "|" + hex.EncodeToString(o.coil.Data) + "|" + fmt.Sprintf("%+v", o.br.Fields) + "|" + fmt.Sprintf("%+v", o.coilBR.Fields) + "|" + fmt.Sprintf("%+v", o.mixedBR.Fields)
 }
 
 type op struct {
@@ -189,6 +198,9 @@ func ops(n int) []op {
 		}
 		return r2(r.Uint16(o.start))
 	})
+	add("ExtractFields(mixed,registers,lenient)", func(o *obj) string { return r2(o.mixedBR.ExtractFields(o.resp, true)) })
+	add("ExtractFields(mixed,registers,strict)", func(o *obj) string { return r2(o.mixedBR.ExtractFields(o.resp, false)) })
+	add("ExtractFields(mixed,coils,lenient)", func(o *obj) string { return r2(o.mixedBR.ExtractFields(o.coil, true)) })
 	add("ExtractFields(strict)", func(o *obj) string { return r2(o.br.ExtractFields(o.resp, false)) })
 	add("ExtractFields(lenient)", func(o *obj) string { return r2(o.br.ExtractFields(o.resp, true)) })
 	add("resp.Bytes", func(o *obj) string { return hex.EncodeToString(o.resp.Bytes()) })
